@@ -1652,6 +1652,277 @@ func (e *explorer) bindingHistories() {
 	}
 }
 
+// ---------------------------------------------------------------- unobserved programs
+// A whole program is evaluated in ONE go and every variable is read ONCE, at the end: nothing is observed in between
+// (reading a variable after every step can itself repair a copy-on-write scheme that tracks reads). Besides the
+// operations of the binding histories (T, A=i=j, R=i, X=i=lo=hi make a new variable) there are writes IN PLACE to an
+// existing variable and values taken without a top-level read of the variable:
+//
+//	W=<i>=<k>=<v>   vi[k] = v            E=<i>=<k>   del(vi[k])            K=<i>   vN = vi
+//	C=<i>=<how>     vN = the value of vi taken from inside a function: how = 0 func(){vi}()  1 func(){x=vi;x}()
+//	                2 func(){func(){vi}()}()  3 func(){[vi]}()[0]  4 func(){{"m":vi}}().m
+//
+// Reference: a store of finite maps where W / E replace the content of variable i only.
+func progSource(ops []bop) string {
+	litItems = nil
+	item := func(o object.Object) string {
+		litItems = append(litItems, o)
+		return fmt.Sprintf("ul(%d)", len(litItems)-1)
+	}
+	var st []string
+	nv := 0
+	for _, o := range ops {
+		v := fmt.Sprintf("v%d", nv)
+		switch o.kind {
+		case 'T':
+			var parts []string
+			for i := 0; i+1 < len(o.items); i += 2 {
+				parts = append(parts, item(o.items[i])+":"+item(o.items[i+1]))
+			}
+			st = append(st, v+"={"+strings.Join(parts, ",")+"}")
+			nv++
+		case 'W':
+			st = append(st, fmt.Sprintf("v%d[%s]=%s", o.i, item(o.k), item(o.v)))
+		case 'E':
+			st = append(st, fmt.Sprintf("del(v%d[%s])", o.i, item(o.k)))
+		case 'K':
+			st = append(st, fmt.Sprintf("%s=v%d", v, o.i))
+			nv++
+		case 'C':
+			f := fmt.Sprintf("s%d", nv)
+			switch o.j {
+			case 0:
+				st = append(st, fmt.Sprintf("%s=func(){v%d};%s=%s()", f, o.i, v, f))
+			case 1:
+				st = append(st, fmt.Sprintf("%s=func(){x=v%d;x};%s=%s()", f, o.i, v, f))
+			case 2:
+				st = append(st, fmt.Sprintf("%s=func(){g=func(){v%d};g()};%s=%s()", f, o.i, v, f))
+			case 3:
+				st = append(st, fmt.Sprintf("%s=func(){[v%d]};%s=%s()[0]", f, o.i, v, f))
+			default:
+				st = append(st, fmt.Sprintf(`%s=func(){{"m":v%d}};%s=%s().m`, f, o.i, v, f))
+			}
+			nv++
+		case 'A':
+			st = append(st, fmt.Sprintf("%s=v%d+v%d", v, o.i, o.j))
+			nv++
+		case 'R':
+			st = append(st, fmt.Sprintf("%s=rest(v%d)", v, o.i))
+			nv++
+		case 'X':
+			st = append(st, fmt.Sprintf("%s=v%d[%d:%d]", v, o.i, o.lo, o.hi))
+			nv++
+		}
+	}
+	vars := make([]string, nv)
+	for i := range vars {
+		vars[i] = fmt.Sprintf("v%d", i)
+	}
+	return strings.Join(st, ";") + ";[[" + strings.Join(vars, ",") + "]][0]"
+}
+
+func progRef(ops []bop) ([]*refMap, bool) {
+	var st []*refMap
+	ok := func(i int) bool { return i >= 0 && i < len(st) }
+	for _, o := range ops {
+		switch o.kind {
+		case 'T':
+			r := &refMap{}
+			for i := 0; i+1 < len(o.items); i += 2 {
+				r.set(o.items[i], o.items[i+1])
+			}
+			st = append(st, r)
+		case 'W', 'E':
+			if !ok(o.i) {
+				return nil, false
+			}
+			r := st[o.i].clone()
+			if o.kind == 'W' {
+				r.set(o.k, o.v)
+			} else {
+				r.del(o.k)
+			}
+			st[o.i] = r
+		case 'K', 'C':
+			if !ok(o.i) {
+				return nil, false
+			}
+			st = append(st, st[o.i].clone())
+		case 'A':
+			if !ok(o.i) || !ok(o.j) {
+				return nil, false
+			}
+			r := st[o.i].clone()
+			for x := range st[o.j].ks {
+				r.set(st[o.j].ks[x], st[o.j].vs[x])
+			}
+			st = append(st, r)
+		case 'R':
+			if !ok(o.i) || len(st[o.i].ks) < 2 {
+				return nil, false
+			}
+			c := st[o.i].clone()
+			st = append(st, &refMap{ks: c.ks[1:], vs: c.vs[1:]})
+		case 'X':
+			if !ok(o.i) || o.lo > o.hi || o.hi > len(st[o.i].ks) {
+				return nil, false
+			}
+			c := st[o.i].clone()
+			st = append(st, &refMap{ks: c.ks[o.lo:o.hi], vs: c.vs[o.lo:o.hi]})
+		}
+	}
+	return st, true
+}
+
+func pW(i int, k, v object.Object) bop {
+	return bop{kind: 'W', i: i, k: k, v: v, tok: fmt.Sprintf("W=%d=%s=%s", i, Canon(k), Canon(v))}
+}
+func pE(i int, k object.Object) bop {
+	return bop{kind: 'E', i: i, k: k, tok: fmt.Sprintf("E=%d=%s", i, Canon(k))}
+}
+func pK(i int) bop      { return bop{kind: 'K', i: i, tok: fmt.Sprintf("K=%d", i)} }
+func pC(i, how int) bop { return bop{kind: 'C', i: i, j: how, tok: fmt.Sprintf("C=%d=%d", i, how)} }
+
+func parsePop(t string) (bop, bool) {
+	f := strings.Split(t, "=")
+	num := func(x string) int {
+		n, err := strconv.Atoi(x)
+		if err != nil {
+			return -1
+		}
+		return n
+	}
+	switch t[0] {
+	case 'W':
+		if len(f) != 4 {
+			return bop{}, false
+		}
+		k, ok1 := ParseCanon(f[2])
+		v, ok2 := ParseCanon(f[3])
+		return pW(num(f[1]), k, v), ok1 && ok2
+	case 'E':
+		if len(f) != 3 {
+			return bop{}, false
+		}
+		k, ok := ParseCanon(f[2])
+		return pE(num(f[1]), k), ok
+	case 'K':
+		return pK(num(f[len(f)-1])), len(f) == 2
+	case 'C':
+		if len(f) != 3 {
+			return bop{}, false
+		}
+		return pC(num(f[1]), num(f[2])), true
+	}
+	return parseBop(t)
+}
+
+func (e *explorer) program(ops []bop) {
+	c := e.c
+	ref, ok := progRef(ops)
+	if !ok {
+		return
+	}
+	toks := make([]string, len(ops))
+	for i, o := range ops {
+		toks[i] = o.tok
+	}
+	cs := "PROG " + strings.Join(toks, " ")
+	code := progSource(ops)
+	st := eval.NewState()
+	st.Out = &strings.Builder{}
+	old := state
+	state = st
+	r, pan := evalSrc(code)
+	state = old
+	c.Eval()
+	c.Count("program:unobserved")
+	c.NonTrivial("prog|" + cs)
+	if pan != "" {
+		c.Fail("unobserved-program-panic", cs, pan+" in "+code)
+		c.Case(cs, "P")
+		return
+	}
+	if r == nil || r.Type() != object.ARRAY || len(object.Elements(r)) != len(ref) {
+		c.Fail("unobserved-program-not-supported", cs, Canon(r)+" from "+code)
+		c.Case(cs, "ERR")
+		return
+	}
+	row := make([]string, len(ref))
+	for i, el := range object.Elements(r) {
+		row[i] = stateStr(el)
+		if len(row[i]) > 0 && row[i][1:] != ref[i].canon() {
+			c.Fail("variable-differs-from-reference:unobserved-program", cs,
+				fmt.Sprintf("read once at the end, v%d is %s; the finite-map history gives %s   (%s)", i, row[i][1:], ref[i].canon(), code))
+		}
+	}
+	c.Case(cs, strings.Join(row, ";"))
+}
+
+func (e *explorer) programs() {
+	c := e.c
+	I := func(n int) object.Object { return object.Integer{Value: int64(n)} }
+	sizes := []int{3, 5, 6, 8}
+	if c.Thorough() {
+		sizes = []int{2, 3, 4, 5, 6, 7, 8, 12}
+	}
+	// write, take the value from inside a function, write again; nothing read at top level in between
+	for _, n := range sizes {
+		writes := func(i int) []bop {
+			return []bop{pW(i, I(n+1), I(60)), pW(i, I(1), I(100)), pE(i, I(1)), pE(i, I(n)), pW(i, I(2), I(200))}
+		}
+		for _, w1 := range writes(0) {
+			for how := 0; how < 5; how++ {
+				for _, w2 := range writes(0) {
+					e.program([]bop{bT(intLit(1, n)), w1, pC(0, how), w2})
+					e.program([]bop{bT(intLit(1, n)), w1, pC(0, how), w2, pC(0, (how+1)%5), pW(0, I(3), I(300)), pW(1, I(4), I(400))})
+				}
+			}
+			e.program([]bop{bT(intLit(1, n)), w1, pK(0), pW(0, I(1), I(100)), pW(1, I(2), I(200))})
+			e.program([]bop{bT(intLit(1, n)), w1, bX(0, 0, n-1), pW(0, I(1), I(100)), bR(0), pW(0, I(2), I(200)), pE(0, I(3))})
+		}
+	}
+	// random programs
+	pool := musts("I1", "F3ff0000000000000", "I2", "I3", "I4", "I5", "I6", "I7", "I8", "I9", "S61", "N")
+	cnt, length := 150, 10
+	if c.Thorough() {
+		cnt, length = 5000, 14
+	}
+	for h := 0; h < cnt && len(c.Failures) < 2000; h++ {
+		var ops []bop
+		nv := 0
+		for len(ops) < length {
+			var o bop
+			pick := func() int { return c.R.Intn(nv) }
+			switch x := c.R.Intn(100); {
+			case nv == 0 || x < 10:
+				o = bT(intLit(1, 2+c.R.Intn(7)))
+			case x < 45:
+				o = pW(pick(), pool[c.R.Intn(len(pool))], I(10+c.R.Intn(90)))
+			case x < 55:
+				o = pE(pick(), pool[c.R.Intn(len(pool))])
+			case x < 80:
+				o = pC(pick(), c.R.Intn(5))
+			case x < 86:
+				o = pK(pick())
+			case x < 93:
+				o = bA(pick(), pick())
+			default:
+				o = bX(pick(), 0, 1)
+			}
+			try := append(append([]bop(nil), ops...), o)
+			if _, ok := progRef(try); !ok {
+				continue
+			}
+			ops = try
+			if o.kind != 'W' && o.kind != 'E' {
+				nv++
+			}
+		}
+		e.program(ops)
+	}
+}
+
 func S(s string) object.Object   { return object.String{Value: s} }
 func Fl(f float64) object.Object { return object.Float{Value: f} }
 
@@ -1722,6 +1993,8 @@ func runC11(c *Ctx) {
 	e.literals()
 	// several bindings alive at once: views, grown copies, two merges from one operand, everything re-read
 	e.bindingHistories()
+	// whole programs read once at the end: in-place writes, values taken from inside functions
+	e.programs()
 	// index assignment replacing a value by an == but different one
 	e.replaceEqual()
 	// keys: 5 (quick) or 7 (thorough) distinct key classes of mixed types
@@ -1771,6 +2044,19 @@ func runC11(c *Ctx) {
 // replay: "MAP <n0> <path|-> <op>"
 func c11Replay(e *explorer, cs string) {
 	f := strings.Fields(cs)
+	if len(f) >= 2 && f[0] == "PROG" {
+		var ops []bop
+		for _, t := range f[1:] {
+			o, ok := parsePop(t)
+			if !ok {
+				fmt.Println("bad op", t)
+				return
+			}
+			ops = append(ops, o)
+		}
+		e.program(ops)
+		return
+	}
 	if len(f) >= 3 && f[0] == "BIND" {
 		var ops []bop
 		for _, t := range f[2:] {
